@@ -14,9 +14,11 @@ from __future__ import annotations
 
 import itertools
 import logging
+import os
 import pickle  # noqa: S403
 import re
 import sys
+import tempfile
 import warnings
 from abc import abstractmethod
 from importlib.metadata import version
@@ -377,12 +379,39 @@ def perform_cached_doit(
     h = get_readable_hash(unevaluated_expr)
     filename = cache_directory / f"{h}.pkl"
     if filename.exists():
-        with open(filename, "rb") as f:
-            return pickle.load(f)  # noqa: S301
+        cached_entry = _load_cached_entry(filename)
+        # The hash may be the same for different expressions (e.g. if they have the
+        # same str representation), so the original expression is stored as well.
+        if (
+            isinstance(cached_entry, tuple)
+            and len(cached_entry) == 2  # noqa: PLR2004
+            and cached_entry[0] == unevaluated_expr
+        ):
+            return cached_entry[1]
     _LOGGER.warning(
         f"Cached expression file {filename} not found, performing doit()..."
     )
     unfolded_expr = unevaluated_expr.doit()
-    with open(filename, "wb") as f:
-        pickle.dump(unfolded_expr, f)
+    # Write to a temporary file first, so that other processes and later calls never
+    # see a partially written cache file.
+    fd, tmp_filename = tempfile.mkstemp(
+        dir=cache_directory, prefix=f"{h}.", suffix=".tmp"
+    )
+    try:
+        with os.fdopen(fd, "wb") as f:
+            pickle.dump((unevaluated_expr, unfolded_expr), f)
+        os.replace(tmp_filename, filename)
+    except BaseException:
+        if os.path.exists(tmp_filename):
+            os.remove(tmp_filename)
+        raise
     return unfolded_expr
+
+
+def _load_cached_entry(filename: Path) -> object:
+    try:
+        with open(filename, "rb") as f:
+            return pickle.load(f)  # noqa: S301
+    except Exception:  # noqa: BLE001
+        # e.g. a truncated or corrupt file: treat as if there is no cache
+        return None
